@@ -116,7 +116,7 @@ func TestC06(t *testing.T) {
 		"for reads, 'logged before returned' is observable only as fail-closedness; for mutations the record must reach the sink while the database file still has its pre-call bytes",
 		"a failing Write may make the writer fail for good (every later request then fails closed), which the property allows")
 	dir := evid.TempDir(t)
-	nHist := r.N(300, 5000)
+	nHist := r.N(2000, 20000)
 	var wg sync.WaitGroup
 	nw := runtime.NumCPU()
 	for w := 0; w < nw; w++ {
@@ -132,7 +132,7 @@ func TestC06(t *testing.T) {
 	}
 	wg.Wait()
 	if r.Only < 0 {
-		for i := 0; i < r.N(3, 30); i++ {
+		for i := 0; i < r.N(8, 60); i++ {
 			concurrent(t, r, dir, i)
 		}
 	}
